@@ -637,6 +637,33 @@ def shift_history(r, bpc):
     return ops
 
 
+def grow_history(r, bpc):
+    """a directory filled to exactly the end of its cluster, above a sub-directory with durable files; the
+    lowest free clusters hold stale bytes that parse as long-name slots; then one more entry (the directory
+    grows into such a cluster), more entries, a second growth"""
+    spc = bpc // 32
+    ops = [["makedir", "/d"], ["makedir", "/d/sub"], ["writebytes", "/d/sub/f.bin", 1, bpc + 5],
+           ["writebytes", "/d/sub/a long name in sub.txt", 2, 7],
+           ["writebytes", "/GARB.BIN", "fill:O", 3 * bpc], ["writebytes", "/GARB2.BIN", "fill:\x0f", 2 * bpc],
+           ["remove", "/GARB.BIN"], ["remove", "/GARB2.BIN"]]
+    used = 3                                            # '.', '..', 'sub'
+    k = 0
+    while used < spc:
+        if spc - used >= 3 and r.random() < 0.4:
+            ops.append(["create", "/d/long name %02d.txt" % k])     # 2 slots (13 units or fewer + alias)
+            used += 2
+        else:
+            ops.append(["create", "/d/E%03d.TXT" % k])
+            used += 1
+        k += 1
+    ops.append(["create", "/d/GROW%d.TXT" % r.randint(0, 9)])
+    ops.append(["writebytes", "/d/after growth with a long name.bin", 3, 10])
+    for j in range(spc):
+        ops.append(["create", "/d/M%03d.TXT" % j])
+    ops.append(["remove", "/d/E000.TXT"] if any(o[1] == "/d/E000.TXT" for o in ops) else ["listdir", "/d"])
+    return ops
+
+
 def shrink(cfg, ops, sig, budget=25, seconds=45):
     """drop earlier operations while the last one still fails the same way (only its crash points are re-examined)"""
     import time
@@ -668,7 +695,7 @@ def run(tier):
         g = specfat.Geom(**cfg["geom"]) if cfg["fmt"] == "spec" else None
         bpc = g.bpc if g else 2048
         for hi in range(nhist):
-            ops = gen_history(r, nops, bpc) if hi % 3 != 2 else shift_history(r, bpc)
+            ops = gen_history(r, nops, bpc) if hi % 3 == 0 else (shift_history(r, bpc) if hi % 3 == 2 else grow_history(r, bpc))
             queries = []
             try:
                 findings, divs, st = run_history(cfg, ops, queries=queries if hi == 0 else None, qrng=r)
